@@ -7,7 +7,7 @@ from .mir import pl_key
 
 # callees through which a value keeps its identity for forward/backward tracking
 TRANSPARENT_FWD = re.compile(
-    r"(IntoFuture>?::into_future|^std::result::Result::<T, E>::map_err$|^std::pin::Pin::<Ptr>::new_unchecked$"
+    r"(IntoFuture>?::into_future|^std::result::Result::<T, E>::(map_err|inspect_err|inspect)$|^std::pin::Pin::<Ptr>::new_unchecked$"
     r"|^std::pin::Pin::<Ptr>::new$|::from_residual$|^std::convert::Into::into$|<T as std::convert::Into<U>>::into"
     r"|^std::convert::From::from$|<T as std::convert::From<T>>::from)"
 )
@@ -22,7 +22,7 @@ TRANSPARENT_BWD = re.compile(
     r"|^std::string::ToString::to_string$|<T as std::string::ToString>::to_string$|^std::string::String::as_str$"
     r"|^std::str::<impl str>::to_owned$|^std::str::<impl str>::to_string$|^std::path::Path::new$|^std::path::Path::to_path_buf$"
     r"|^std::path::Path::to_owned$|^std::path::PathBuf::as_path$|^std::sync::Arc::<T>::new$|^std::boxed::Box::<T>::new$"
-    r"|IntoFuture>?::into_future$|^std::pin::Pin::<Ptr>::new_unchecked$|^std::result::Result::<T, E>::map_err$|^bytes::BytesMut::freeze$|^std::mem::take$"
+    r"|IntoFuture>?::into_future$|^std::pin::Pin::<Ptr>::new_unchecked$|^std::result::Result::<T, E>::(map_err|inspect_err|inspect)$|^bytes::BytesMut::freeze$|^std::mem::take$"
     r"|^std::option::Option::<T>::take$|^std::option::Option::<T>::as_mut$|^std::iter::IntoIterator>?::into_iter$|::into_iter$"
     r"|std::ops::Try>?::branch$|std::convert::TryInto<.*>>?::try_into$|^std::convert::TryInto::try_into$|std::convert::TryFrom<.*>>?::try_from$"
     r"|^std::iter::Iterator::rev$|^std::slice::<impl \[T\]>::iter$|^std::vec::Vec::<T, A>::as_slice$|<.* as std::ops::Index<.*>>::index$)"
@@ -167,6 +167,94 @@ def success_edges(body, event, kind="ok"):
     return edges, how
 
 
+def bool_switch_edges(body, local):
+    """(true_edges, false_edges) of switches on a bool held in `local` (or a plain move/copy/not of it)."""
+    carriers = {local}
+    neg = set()
+    changed = True
+    while changed:
+        changed = False
+        for bb in body.live:
+            for s in body.blocks[bb]["stmts"]:
+                if s["sk"] != "assign" or s["pl"]["p"]:
+                    continue
+                rv = s["rv"]
+                d = s["pl"]["l"]
+                if d in carriers or d in neg:
+                    continue
+                if rv["rk"] == "use":
+                    l = operand_local(rv["ops"][0])
+                    if l is not None and not rv["ops"][0]["pl"]["p"]:
+                        if l in carriers:
+                            carriers.add(d)
+                            changed = True
+                        elif l in neg:
+                            neg.add(d)
+                            changed = True
+                elif rv["rk"] == "unop" and rv.get("op") == "Not":
+                    l = operand_local(rv["ops"][0])
+                    if l is not None and not rv["ops"][0]["pl"]["p"]:
+                        if l in carriers:
+                            neg.add(d)
+                            changed = True
+                        elif l in neg:
+                            carriers.add(d)
+                            changed = True
+    te, fe = set(), set()
+    for bb in body.live:
+        t = body.blocks[bb]["term"]
+        if t["tk"] != "switch":
+            continue
+        dl = operand_local(t["discr"])
+        if dl is None or t["discr"]["pl"]["p"]:
+            continue
+        if dl in carriers or dl in neg:
+            arms = {int(a[0]): a[1] for a in t["arms"]}
+            f_t = arms.get(0)
+            t_t = t["otherwise"] if 0 in arms else arms.get(1)
+            if 0 not in arms:
+                f_t = t["otherwise"]
+            if dl in neg:
+                t_t, f_t = f_t, t_t
+            if t_t is not None:
+                te.add((bb, t_t))
+            if f_t is not None:
+                fe.add((bb, f_t))
+    return te, fe
+
+
+def none_edges(body, event):
+    """Edges taken exactly when the Option produced by `event` turned out to be None: the None arm of a
+    match / if-let / let-else on it, the Break edge of `?` on it, the true edge of `.is_none()` and the false
+    edge of `.is_some()`.  Returns (edges, how)."""
+    carriers = result_carriers(body, event.dest["l"])
+    edges, how = set(), []
+    for e in body.events:
+        if e.bb not in body.live or not e.args:
+            continue
+        l = operand_local(e.args[0])
+        if l not in carriers:
+            continue
+        if e.callee == "std::ops::Try::branch":
+            for (sb, tested, arms, other) in discriminant_switches(body, {e.dest["l"]}):
+                t = arms.get(1, other)
+                if t is not None:
+                    edges.add((sb, t))
+                    how.append("?@bb%d" % sb)
+        elif e.name in ("std::option::Option::<T>::is_none", "std::option::Option::<T>::is_some"):
+            te, fe = bool_switch_edges(body, e.dest["l"])
+            edges |= te if e.name.endswith("is_none") else fe
+            how.append("%s@bb%d" % (e.name.rsplit("::", 1)[1], e.bb))
+    for (sb, tested, arms, other) in discriminant_switches(body, carriers):
+        if not body.locals[tested].startswith("std::option::Option"):
+            continue
+        t = arms.get(0, other)
+        if t is not None:
+            edges.add((sb, t))
+            how.append("match@bb%d" % sb)
+    return edges, how
+
+
 def await_poll(body, create_event):
     """For a call that creates a future, the poll event(s) that await it in this body."""
     carriers = result_carriers(body, create_event.dest["l"])
@@ -282,7 +370,17 @@ def origins(body, op_or_local, path=(), max_steps=4000, transparent=TRANSPARENT_
                 elif rk == "agg":
                     ops = rv["ops"]
                     picked = False
-                    if rv.get("ak") == "adt" and sub:
+                    if rv.get("ak") == "adt" and sub and rv.get("adt") in _WRAPPERS and not sub[0].startswith("dc:"):
+                        # the path is relative to the payload (it came through `?`, unwrap, an await ...): a success
+                        # wrapper hands on its payload, a failure variant has none
+                        picked = True
+                        if rv.get("variant") in ("Ok", "Some", "Ready", "Continue") and ops:
+                            op = ops[0]
+                            if op.get("k") == "const":
+                                out.add(("const",) + const_value(op))
+                            else:
+                                wl.append((op["pl"]["l"], _strip_path(op["pl"]["p"]) + tuple(sub)))
+                    elif rv.get("ak") == "adt" and sub:
                         # select the field named by the path
                         first = sub[0]
                         # skip a leading downcast
@@ -347,11 +445,17 @@ def origins(body, op_or_local, path=(), max_steps=4000, transparent=TRANSPARENT_
                         args = t["args"]
                         if args and args[0].get("k") != "const":
                             wl.append((args[0]["pl"]["l"], ()))
+                elif path and not path[0].startswith("dc:") and name.endswith("::from_residual"):
+                    # `?` returning early: the value made here is a failure and has no payload to read a field of
+                    pass
                 else:
                     out.add(("call", name, bb, tuple(_fieldnames(_unwrap_path(path)))))
             elif kind == "yield":
                 out.add(("resume",))
     return out
+
+
+_WRAPPERS = ("std::result::Result", "std::option::Option", "std::task::Poll", "std::ops::ControlFlow")
 
 
 def _unwrap_path(path):
